@@ -310,7 +310,7 @@ pub fn compare(v: &VNode, val: &Value, attr_prefix: &str, text_key: &str, path: 
         }
     };
     let mut used = vec![false; fields.len()];
-    let mut find = |key: &str, used: &mut Vec<bool>| -> Option<Value> {
+    let find = |key: &str, used: &mut Vec<bool>| -> Option<Value> {
         for (i, f) in fields.iter().enumerate() {
             if !used[i] && f[0].as_str() == Some(key) {
                 used[i] = true;
